@@ -54,6 +54,17 @@ func swapArtifact(srcPath, targetPath string, uid, gid int, modeStr string, extr
 		return fmt.Errorf("ensure parent dir %s: %w", dir, err)
 	}
 
+	// A previous swap that was killed between writing the staging file and
+	// the rename leaves <dir>/.<base>.new behind. Never reuse it: O_TRUNC
+	// keeps its mode (which becomes the artifact's mode when the manifest
+	// gives none) and follows it if it is a symlink. A directory there is
+	// not ours; leave it and let the open below fail loudly.
+	if fi, err := os.Lstat(stagingName); err == nil && !fi.IsDir() {
+		if err := os.Remove(stagingName); err != nil {
+			return fmt.Errorf("remove stale staging file %s: %w", stagingName, err)
+		}
+	}
+
 	if err := writeStagingFile(srcPath, stagingName); err != nil {
 		_ = os.Remove(stagingName)
 		return err
